@@ -1,6 +1,8 @@
 package db
 
 import (
+	"errors"
+
 	"github.com/tailscale/setec/types/api"
 )
 
@@ -66,4 +68,241 @@ func verifHarnessC02Put() {
 	assert("others-kept", verifVersionsEqExcept(s, ps, v))
 	assert("gen-advanced", k.gen == preGen+1)
 	reach("end-new-version")
+}
+
+func verifNameOK(name string) bool { return and(name != "", not(hasConfigPrefix(name))) }
+
+func verifHarnessC02Activate() {
+	k := verifSymKV(param("secrets"), param("versions"), "save.fail")
+	assume(verifKVInv(k))
+	assume(verifKVBound(k))
+	d := verifDB(k, &verifSink{})
+	name := nondetString("name")
+	other := nondetString("other")
+	assume(other != name)
+	ver := api.SecretVersion(nondetU32("version"))
+	pre := snapshot(k.secrets)
+	preGen := k.gen
+
+	err := d.Activate(verifSuperuser(), name, ver)
+
+	assert("inv", verifKVInv(k))
+	assert("frame", deepEq(k.secrets[other], pre[other]))
+	ps := pre[name]
+	precond := and(verifNameOK(name), ver != 0, ps != nil)
+	if ps != nil {
+		precond = and(precond, mapHas(ps.Versions, ver))
+	}
+	if err != nil {
+		assert("unchanged-on-error", deepEq(k.secrets, pre))
+		assert("gen-unchanged-on-error", k.gen == preGen)
+		assert("error-has-cause", or(not(precond), verifFaulted()))
+		reach("end-error")
+		return
+	}
+	assert("success-needs-precond", precond)
+	s := k.secrets[name]
+	assert("exists", s != nil)
+	assert("active-set", s.ActiveVersion == ver)
+	assert("versions-kept", and(deepEq(s.Versions, ps.Versions), s.LatestVersion == ps.LatestVersion))
+	assert("gen", k.gen == iteU64(ps.ActiveVersion == ver, preGen, preGen+1))
+	reach("end-ok")
+}
+
+func verifHarnessC02DeleteVersion() {
+	k := verifSymKV(param("secrets"), param("versions"), "save.fail")
+	assume(verifKVInv(k))
+	assume(verifKVBound(k))
+	d := verifDB(k, &verifSink{})
+	name := nondetString("name")
+	other := nondetString("other")
+	assume(other != name)
+	ver := api.SecretVersion(nondetU32("version"))
+	pre := snapshot(k.secrets)
+	preGen := k.gen
+
+	err := d.DeleteVersion(verifSuperuser(), name, ver)
+
+	assert("inv", verifKVInv(k))
+	assert("frame", deepEq(k.secrets[other], pre[other]))
+	ps := pre[name]
+	precond := and(not(hasConfigPrefix(name)), ver != 0, ps != nil)
+	if ps != nil {
+		precond = and(precond, mapHas(ps.Versions, ver), ps.ActiveVersion != ver)
+	}
+	if err != nil {
+		assert("unchanged-on-error", deepEq(k.secrets, pre))
+		assert("gen-unchanged-on-error", k.gen == preGen)
+		assert("error-has-cause", or(not(precond), verifFaulted()))
+		reach("end-error")
+		return
+	}
+	assert("success-needs-precond", precond)
+	s := k.secrets[name]
+	assert("exists", s != nil)
+	assert("active-kept", and(s.ActiveVersion == ps.ActiveVersion, s.LatestVersion == ps.LatestVersion))
+	assert("version-gone", not(mapHas(s.Versions, ver)))
+	assert("others-kept", mapAll(ps.Versions, func(kk api.SecretVersion, bs byteString) bool {
+		return or(kk == ver, and(mapHas(s.Versions, kk), s.Versions[kk] == bs))
+	}))
+	assert("nothing-added", mapAll(s.Versions, func(kk api.SecretVersion, bs byteString) bool {
+		return and(mapHas(ps.Versions, kk), ps.Versions[kk] == bs)
+	}))
+	assert("gen-advanced", k.gen == preGen+1)
+	reach("end-ok")
+}
+
+func verifHarnessC02Delete() {
+	k := verifSymKV(param("secrets"), param("versions"), "save.fail")
+	assume(verifKVInv(k))
+	assume(verifKVBound(k))
+	d := verifDB(k, &verifSink{})
+	name := nondetString("name")
+	other := nondetString("other")
+	assume(other != name)
+	pre := snapshot(k.secrets)
+	preGen := k.gen
+
+	err := d.Delete(verifSuperuser(), name)
+
+	assert("inv", verifKVInv(k))
+	assert("frame", deepEq(k.secrets[other], pre[other]))
+	if err != nil {
+		assert("unchanged-on-error", deepEq(k.secrets, pre))
+		assert("gen-unchanged-on-error", k.gen == preGen)
+		assert("error-has-cause", or(hasConfigPrefix(name), verifFaulted()))
+		reach("end-error")
+		return
+	}
+	assert("success-needs-precond", not(hasConfigPrefix(name)))
+	assert("gone", not(mapHas(k.secrets, name)))
+	assert("others-kept", mapAll(pre, func(n string, s *secret) bool {
+		return or(n == name, mapHas(k.secrets, n))
+	}))
+	assert("gen", k.gen == iteU64(mapHas(pre, name), preGen+1, preGen))
+	reach("end-ok")
+}
+
+func verifHarnessC02Get() {
+	k := verifSymKV(param("secrets"), param("versions"), "")
+	assume(verifKVInv(k))
+	d := verifDB(k, &verifSink{})
+	name := nondetString("name")
+	pre := snapshot(k.secrets)
+	preGen := k.gen
+
+	sv, err := d.Get(verifSuperuser(), name)
+
+	assert("state-unchanged", and(deepEq(k.secrets, pre), k.gen == preGen))
+	ps := pre[name]
+	if ps == nil {
+		assert("absent-notfound", and(sv == nil, errors.Is(err, ErrNotFound)))
+		reach("end-absent")
+		return
+	}
+	assert("present-ok", and(err == nil, sv != nil))
+	assert("active-number", sv.Version == ps.ActiveVersion)
+	assert("active-bytes", byteString(sv.Value) == ps.Versions[ps.ActiveVersion])
+	// copy-out: mutating the returned slice must not change the store
+	mutate(sv.Value)
+	assert("no-alias", deepEq(k.secrets, pre))
+	reach("end-present")
+}
+
+func verifHarnessC02GetVersion() {
+	k := verifSymKV(param("secrets"), param("versions"), "")
+	assume(verifKVInv(k))
+	d := verifDB(k, &verifSink{})
+	name := nondetString("name")
+	ver := api.SecretVersion(nondetU32("version"))
+	pre := snapshot(k.secrets)
+	preGen := k.gen
+
+	sv, err := d.GetVersion(verifSuperuser(), name, ver)
+
+	assert("state-unchanged", and(deepEq(k.secrets, pre), k.gen == preGen))
+	ps := pre[name]
+	found := ps != nil
+	if ps != nil {
+		if !mapHas(ps.Versions, ver) {
+			found = false
+		}
+	}
+	if !found {
+		assert("absent-notfound", and(sv == nil, errors.Is(err, ErrNotFound)))
+		reach("end-absent")
+		return
+	}
+	assert("present-ok", and(err == nil, sv != nil))
+	assert("number", sv.Version == ver)
+	assert("bytes", byteString(sv.Value) == ps.Versions[ver])
+	mutate(sv.Value)
+	assert("no-alias", deepEq(k.secrets, pre))
+	reach("end-present")
+}
+
+func verifSortedStrict(vs []api.SecretVersion) bool {
+	ok := true
+	for i := 1; i < len(vs); i++ {
+		ok = and(ok, vs[i-1] < vs[i])
+	}
+	return ok
+}
+
+func verifHarnessC02Info() {
+	k := verifSymKV(param("secrets"), param("versions"), "")
+	assume(verifKVInv(k))
+	d := verifDB(k, &verifSink{})
+	name := nondetString("name")
+	pre := snapshot(k.secrets)
+
+	info, err := d.Info(verifSuperuser(), name)
+
+	assert("state-unchanged", deepEq(k.secrets, pre))
+	ps := pre[name]
+	if ps == nil {
+		assert("absent-notfound", and(info == nil, errors.Is(err, ErrNotFound)))
+		reach("end-absent")
+		return
+	}
+	assert("present-ok", and(err == nil, info != nil))
+	assert("name-active", and(info.Name == name, info.ActiveVersion == ps.ActiveVersion))
+	assert("count", len(info.Versions) == len(ps.Versions))
+	assert("sorted-distinct", verifSortedStrict(info.Versions))
+	all := true
+	for _, v := range info.Versions {
+		all = and(all, mapHas(ps.Versions, v))
+	}
+	assert("members", all)
+	reach("end-present")
+}
+
+func verifHarnessC02List() {
+	k := verifSymKV(param("secrets"), param("versions"), "")
+	assume(verifKVInv(k))
+	d := verifDB(k, &verifSink{})
+	pre := snapshot(k.secrets)
+
+	infos, err := d.List(verifSuperuser())
+
+	assert("state-unchanged", deepEq(k.secrets, pre))
+	assert("ok", err == nil)
+	assert("count", len(infos) == len(pre))
+	ok := true
+	for i, in := range infos {
+		if i > 0 {
+			ok = and(ok, infos[i-1].Name < in.Name)
+		}
+		ps := pre[in.Name]
+		if ps == nil {
+			assert("listed-exists", false)
+			return
+		}
+		ok = and(ok, in.ActiveVersion == ps.ActiveVersion, len(in.Versions) == len(ps.Versions), verifSortedStrict(in.Versions))
+		for _, v := range in.Versions {
+			ok = and(ok, mapHas(ps.Versions, v))
+		}
+	}
+	assert("entries", ok)
+	reach("end")
 }
